@@ -3,7 +3,7 @@
 From Coq Require Import List ZArith QArith Qabs Bool String Reals Qreals Qcanon.
 From BZ Require Import Base.PyVal Model.Hull Gen.PyFnHelpers Gen.PyFnGeometric Gen.PyFnTriangle
   Theory.Predicates Theory.HullTheory Base.Ops Base.RInst Model.Curve Model.LinErr Gen.PyGeometricIntersection Theory.Hom Theory.LinError Theory.LinErrorQc
-  Gen.PyFnClipping Model.Clip Theory.ClipSpec Theory.ClipHull Theory.ClipSound.
+  Gen.PyFnClipping Model.Clip Theory.ClipSpec Theory.ClipHull Theory.ClipSound Gen.F90Const Gen.F90Fn Theory.TwinsFn.
 Import ListNotations.
 Open Scope Q_scope.
 
@@ -154,3 +154,31 @@ Example C16_clip_range_docstring_example : exists smin smax,
   clip_range [2; 4.5; 2.5; 5] [0; 1; 3; 4] [-0.25; 3.75; 7] [3.125; 0.875; 3.125] = VTup [VQ smin; VQ smax] /\
   smin == 1 # 4 /\ smax == 7 # 8.
 Proof. eexists; eexists. split; [vm_compute; reflexivity|]. split; reflexivity. Qed.
+
+(* ---- each predicate with its Fortran twin: the Fortran routine, regenerated from its source text (translate/f902v_fn.py), equals the
+   regenerated Python function, so every specification above holds for the Fortran text too (exact arithmetic) ---- *)
+Theorem C16_fortran_twins_of_the_scalar_predicates :
+  (forall v a b, f90_in_interval v a b = py_in_interval v a b) /\
+  (forall u v, f90_cross_product u v = py_cross_product u v) /\
+  (forall n, f90_bbox n = py_bbox n) /\
+  (forall n p, f90_contains_nd n p = py_contains_nd n p) /\
+  (forall v, f90_wiggle_interval v = py_wiggle_interval v (VQ f90_helpers_WIGGLE)) /\
+  (forall a b c d, f90_segment_intersection a b c d = py_segment_intersection a b c d) /\
+  (forall lhs rhs, f90_solve2x2 lhs rhs = py_solve2x2 lhs rhs).
+Proof. exact scalar_twins. Qed.
+Print Assumptions C16_fortran_twins_of_the_scalar_predicates.
+Theorem C16_fortran_twins_of_the_box_and_segment_tests :
+  (forall x0 xs y0 ys u0 us v0 vs,
+     f90_bbox_intersect (vq_mat [x0 :: xs; y0 :: ys]) (vq_mat [u0 :: us; v0 :: vs])
+     = py_bbox_intersect (vq_mat [x0 :: xs; y0 :: ys]) (vq_mat [u0 :: us; v0 :: vs])) /\
+  (forall x0 xs y0 ys sx sy ex ey,
+     f90_bbox_line_intersect (vq_mat [x0 :: xs; y0 :: ys]) (V2 sx sy) (V2 ex ey)
+     = py_bbox_line_intersect (vq_mat [x0 :: xs; y0 :: ys]) (V2 sx sy) (V2 ex ey)) /\
+  (forall ax ay bx by_ cx cy dx dy,
+     f90_line_line_collide (L2 ax ay bx by_) (L2 cx cy dx dy) = py_line_line_collide (L2 ax ay bx by_) (L2 cx cy dx dy)) /\
+  (forall x0 y0 x1 y1 x2 y2 x3 y3,
+     let F := f90_parallel_lines_parameters (V2 x0 y0) (V2 x1 y1) (V2 x2 y2) (V2 x3 y3) in
+     let P := py_parallel_lines_parameters (V2 x0 y0) (V2 x1 y1) (V2 x2 y2) (V2 x3 y3) in
+     vidx F 0 = vidx P 0 /\ (vidx P 0 = VB false -> val_close 0 (vidx P 1) (vidx F 1) = true)).
+Proof. exact box_and_segment_twins. Qed.
+Print Assumptions C16_fortran_twins_of_the_box_and_segment_tests.
